@@ -11,7 +11,8 @@ from ..core import Violation, Outcome
 ID = 'C02'
 TITLE = 'plain merge == right-biased recursive update'
 RULE = ('stage sequences of 1-5 tag-free mapping documents over a small key alphabet (str incl. underscore, int incl. negative), '
-        'later stages derived from earlier ones by keep/drop/replace/kind-change/mapping-onto-list; non-trivial = >=2 stages '
+        'later stages derived from earlier ones by keep/drop/replace/kind-change/mapping-onto-list; in a quarter of the cases a container of one document is '
+        'used again through a yaml anchor / alias (plain yaml, no tag) and later stages write below either place; non-trivial = >=2 stages '
         'that share a path of depth >=2, or a kind change at a shared path, or a mapping merged onto a list; distinct = hash of the rendered texts')
 BUDGET = {'quick': (4, 700), 'thorough': (16, 12000)}
 ASSUMPTIONS = ['PyYAML SafeLoader defines the plain content of a tag-free document',
@@ -46,9 +47,34 @@ def fold(plains):
     return acc
 
 
+@st.composite
+def _case(draw):
+    docs = draw(S.stage_sequence(S.scalar_node(S.SIMPLE_SCALARS), S.MERGE_KEYS, min_stages=1, max_stages=5))
+    # yaml anchors / aliases (plain yaml, no tags): a container of some document is used again under further keys of that document;
+    # the other stages - generated before - write into paths of the anchored container, and sometimes into the alias place
+    if draw(st.integers(0, 3)) == 0:
+        di = draw(st.integers(0, len(docs) - 1))
+        d = docs[di]
+        cands = [n for p_, n in tdoc.walk(d) if p_ and n['t'] in ('map', 'seq') and n['items']]
+        if cands:
+            tgt = cands[draw(st.integers(0, len(cands) - 1))]
+            tgt['anchor'] = 'n0'
+            al = {'t': 'alias', 'name': 'n0'}
+            shape = draw(st.integers(0, 2))
+            val = al if shape == 0 else tdoc.sq([dict(al), dict(al)], flow=draw(st.booleans())) if shape == 1 else tdoc.mp([('k', dict(al))], flow=draw(st.booleans()))
+            d['items'] = [kv for kv in d['items'] if kv[0] != 'zal'] + [['zal', val]]
+            if di + 1 < len(docs) and draw(st.booleans()):
+                # a later stage writes into the alias place
+                sub = draw(S.mutate(tgt, S.scalar_node(S.SIMPLE_SCALARS), S.MERGE_KEYS))
+                sub = {k: v for k, v in sub.items() if k != 'anchor'}
+                place = sub if shape == 0 else tdoc.mp([(draw(st.integers(0, 1)), sub)]) if shape == 1 else tdoc.mp([('k', sub)])
+                later = docs[draw(st.integers(di + 1, len(docs) - 1))]
+                later['items'] = [kv for kv in later['items'] if kv[0] != 'zal'] + [['zal', place]]
+    return {'docs': docs}
+
+
 def strategy():
-    return st.builds(lambda docs: {'docs': docs},
-                     S.stage_sequence(S.scalar_node(S.SIMPLE_SCALARS), S.MERGE_KEYS, min_stages=1, max_stages=5))
+    return _case()
 
 
 def _paths(p, pre=()):
@@ -87,9 +113,9 @@ def run_case(case):
     texts = [tdoc.render(d) for d in docs]
     plains = [yaml.safe_load(t) for t in texts]
     for d, p in zip(docs, plains):
-        if O.canon(tdoc.plain(d)) != O.canon(p):
+        if O.canon(tdoc.plain_resolved(d)) != O.canon(p):
             from ..core import HarnessError
-            raise HarnessError(f'renderer: {tdoc.plain(d)!r} rendered as {p!r}')
+            raise HarnessError(f'renderer: {tdoc.plain_resolved(d)!r} rendered as {p!r}')
     try:
         expected = ('ok', fold(plains))
     except Invalid as e:
@@ -97,6 +123,8 @@ def run_case(case):
     status, got = O.try_call(O.build_config, texts)
     nontrivial, labels = classify(plains)
     labels.append('expect-' + expected[0])
+    if any(n['t'] == 'alias' for d in docs for _, n in tdoc.walk(d)):
+        labels.append('yaml-alias-of-a-container')
     if expected[0] == 'ok':
         if status != 'ok':
             raise Violation(f'C02: build failed with {type(got).__name__}: {got} but the recursive-update fold gives {expected[1]!r}\nsources:\n' + '\n'.join(texts))
